@@ -242,6 +242,66 @@ func mutate(v reflect.Value) {
 	}
 }
 
+// isHand: a type of the generated inputs that has hand-written DeepCopy functions
+func isHand(rt reflect.Type) bool { return rt.Kind() == reflect.Struct && (rt.Name() == "Hand" || rt.Name() == "HandA") }
+
+// assignableRT mirrors types.Type.IsAssignable: scalars and structs of assignable members
+func assignableRT(rt reflect.Type) bool {
+	switch rt.Kind() {
+	case reflect.Struct:
+		for i := 0; i < rt.NumField(); i++ {
+			if !assignableRT(rt.Field(i).Type) {
+				return false
+			}
+		}
+		return true
+	case reflect.Ptr, reflect.Slice, reflect.Map, reflect.Array, reflect.Interface, reflect.Chan, reflect.Func:
+		return false
+	}
+	return true
+}
+
+func holdsHandByValue(rt reflect.Type) bool {
+	if isHand(rt) {
+		return true
+	}
+	if rt.Kind() == reflect.Struct {
+		for i := 0; i < rt.NumField(); i++ {
+			if holdsHandByValue(rt.Field(i).Type) {
+				return true
+			}
+		}
+	}
+	return false
+}
+
+// bypassesHand: somewhere below rt there is a slot (field, element, map value, pointee) whose type is
+// a struct without hand-written functions that IsAssignable and holds a hand-written type by value:
+// deepcopy-gen copies such a slot by assignment (the recorded known finding)
+func bypassesHand(rt reflect.Type, top bool, seen map[reflect.Type]bool) bool {
+	if seen[rt] {
+		return false
+	}
+	seen[rt] = true
+	switch rt.Kind() {
+	case reflect.Ptr, reflect.Slice, reflect.Map, reflect.Array:
+		return bypassesHand(rt.Elem(), false, seen)
+	case reflect.Struct:
+		if isHand(rt) {
+			return false
+		}
+		if !top && assignableRT(rt) && holdsHandByValue(rt) {
+			return true
+		}
+		for i := 0; i < rt.NumField(); i++ {
+			if bypassesHand(rt.Field(i).Type, false, seen) {
+				return true
+			}
+		}
+	}
+	return false
+}
+
 func countHands(v reflect.Value) int {
 	n := 0
 	switch v.Kind() {
@@ -258,7 +318,7 @@ func countHands(v reflect.Value) int {
 			n += countHands(v.MapIndex(k))
 		}
 	case reflect.Struct:
-		if v.Type().Name() == "Hand" {
+		if v.Type().Name() == "Hand" || v.Type().Name() == "HandA" {
 			return 1
 		}
 		for i := 0; i < v.NumField(); i++ {
@@ -323,7 +383,7 @@ func (t *tySer) ty(rt reflect.Type) string {
 				fs = append(fs, t.ty(rt.Field(i).Type))
 			}
 			hand := 0
-			if rt.Name() == "Hand" {
+			if rt.Name() == "Hand" || rt.Name() == "HandA" {
 				hand = 1
 			}
 			return atomS("struct") + " " + numS(hand) + " (" + strings.Join(fs, " ") + ")"
@@ -440,6 +500,9 @@ func main() {
 		pt := reflect.TypeOf(t.ptr)
 		_, hasDC := pt.MethodByName("DeepCopy")
 		_, hasDCI := pt.MethodByName("DeepCopyInto")
+		if bypassesHand(pt.Elem(), true, map[reflect.Type]bool{}) {
+			fmt.Printf("BYPASS %s\n", t.name)
+		}
 		if hasDC != t.generated || (t.generated && !hasDCI) {
 			fmt.Printf("SELECT %s generated=%v expected=%v\n", t.name, hasDC, t.generated)
 		} else {
@@ -536,6 +599,9 @@ func c16(g *Gen) {
 	for i := 0; i < n; i++ {
 		prefix := fmt.Sprintf("dc%d/", i)
 		prog, cls := g.genDeepcopyProgram(prefix, 1+g.R.Intn(3), i%2 == 1)
+		if i == 0 {
+			prog, cls = dcFixedProgram(prefix), []string{"dc-fixed-shapes"}
+		}
 		var dirs []string
 		for _, gp := range prog {
 			d := filepath.Join(src, gp.Path)
@@ -644,8 +710,9 @@ func c16(g *Gen) {
 		}
 		g.Emit("C16.compiles!", list(atom(""), atom("")), boolS(true), append(cls, "compile")...)
 		var selBad []string
+		bypassTypes := map[string]bool{}
 		lines := strings.Split(strings.TrimSpace(string(outb)), "\n")
-		sort.Strings(lines)
+		sort.Strings(lines) // (BYPASS sorts before CASE, COPY and SELECT)
 		for _, l := range lines {
 			f := strings.SplitN(l, " ", 4)
 			switch f[0] {
@@ -665,10 +732,15 @@ func c16(g *Gen) {
 				if f[2] != "ok" {
 					selBad = append(selBad, l)
 				}
+			case "BYPASS":
+				bypassTypes[f[1]] = true
 			case "COPY":
 				c := append([]string{"copies"}, cls...)
 				if arrayRefTypes[f[1]] {
 					c = append(c, "sig:array-of-references-field")
+				}
+				if bypassTypes[f[1]] {
+					c = append(c, "sig:hand-written-inside-assignable")
 				}
 				detail := ""
 				if len(f) > 3 {
@@ -677,7 +749,15 @@ func c16(g *Gen) {
 				g.Emit("C16.copies!", list(atom(f[1]), atom(detail), atom(allSrc)), boolS(f[2] == "ok"), c...)
 			}
 		}
-		g.Emit("C16.selection!", list(atom(strings.Join(selBad, "; ")), atom(allSrc)), boolS(len(selBad) == 0), append(cls, "selection")...)
+		genText := ""
+		if len(selBad) > 0 {
+			for _, gp := range prog {
+				if bs, e := os.ReadFile(filepath.Join(src, gp.Path, "zz_generated.deepcopy.go")); e == nil {
+					genText += "// " + gp.Path + "/zz_generated.deepcopy.go\n" + string(bs) + "\n"
+				}
+			}
+		}
+		g.Emit("C16.selection!", list(atom(strings.Join(selBad, "; ")), atom(allSrc), atom(genText)), boolS(len(selBad) == 0), append(cls, "selection")...)
 		os.RemoveAll(filepath.Join(src, "ex.test", fmt.Sprintf("dc%d", i)))
 	}
 }
